@@ -5445,6 +5445,66 @@ def attr_mutations(rng, b, in_ty, req, limit):
     return out[:limit]
 
 
+def attrs_length_cases(ctx, pid, queries, expect):
+    """deterministic (not sampled): attribute / XmlData values that violate ONLY a length facet (min_len / max_len) — the
+    part of the soft checks that validate_string carries — next to the conformant document; soft validation, 3 protocols.
+    Returns the number of length-only cases run (the caller insists on > 0)."""
+    def a_str(mn, mx, mk):
+        return {'k': 'prim', 'p': {'t': 'str', 'min': mn, 'max': mx, 'pat': None, 'values': []}, 'o': default_occ(), 'mk': mk}
+    i = {'k': 'prim', 'p': {'t': 'int', 'kind': 'unbounded', 'ge': None, 'gt': None, 'le': None, 'lt': None}, 'o': default_occ()}
+    u = {'tns': 'urn:len', 'idx': 7999, 'classes': [
+        {'name': 'L0', 'ns': 'urn:len', 'base': None, 'depth': 0,
+         'own': [['code', a_str(2, 4, 'attribute')], ['note', a_str(0, 3, 'attribute')], ['x', i]]},
+        {'name': 'L1', 'ns': 'urn:len', 'base': None, 'depth': 0,
+         'own': [['value', a_str(0, 3, 'data')], ['unit', a_str(1, 2, 'attribute')]]}],
+        'methods': [{'name': 'm0', 'args': [['a0', {'k': 'ref', 'cls': 'L0', 'o': default_occ()}],
+                                            ['a1', {'k': 'ref', 'cls': 'L1', 'o': default_occ()}]], 'rets': []}]}
+    b = build_classes(u)
+    servers = servers_for(b, validators=('soft',))
+    key, in_ty, out_ty = b.methods['m0']
+    set_return(b, 'm0', out_ty, [])
+
+    def doc(code='ABC', note='ab', value='xyz', unit='kg'):
+        return mk_node('urn:len', 'm0', children=[
+            mk_node('urn:len', 'a0', attrs=[['code', cps(code)], ['note', cps(note)]], children=[mk_node('urn:len', 'x', text=cps('1'))]),
+            mk_node('urn:len', 'a1', attrs=[['unit', cps(unit)]], text=cps(value) or None)])
+    cases = (('conformant', doc(), True), ('attr-length:too-long', doc(code='ABCDE'), False),
+             ('attr-length:too-short', doc(code='A'), False), ('attr-length:too-long:min0', doc(note='abcd'), False),
+             ('attr-length:empty-below-min', doc(unit=''), False), ('attr-length:too-long:2', doc(unit='abc'), False),
+             ('data-length:too-long', doc(value='abcd'), False), ('attr-length:at-max', doc(code='ABCD', note='abc', unit='kg'), True),
+             ('attr-length:at-min', doc(code='AB', note='', unit='k'), True))
+    n = 0
+    for tag, d, exp in cases:
+        for proto in PROTOS:
+            app, server = servers[(proto, 'soft')]
+            data = to_bytes(wrap_envelope(proto, [d]))
+            r = run_request(b, server, data)
+            accepted = bool(r.calls)
+            ctx.case({'p': proto, 'doc': d, 'len-case': tag}, True)
+            ctx.hit('%s:attrs:%s:%s' % (pid, tag, 'accept' if accepted else 'reject'))
+            n += 0 if exp else 1
+            replay = {'kind': 'c05', 'universe': u, 'proto': proto, 'validator': 'soft', 'method': 'm0',
+                      'request': data.decode('utf-8', 'replace'), 'mutation': 'attrs:' + tag, 'expected_accept': exp, 'attrs': True}
+            code = r.in_fault or (r.fault if not r.calls else None)
+            if r.crash or (code and not code.startswith('Client')):
+                if pid in ('c05', 'c10'):
+                    ctx.finding('%s:attrs-crash:%s:%s' % (pid, tag, r.crash or code), 'a document with %s is answered with %s' % (
+                        tag, r.crash or code), replay)
+            elif pid == 'c05' and accepted != exp:
+                ctx.finding('c05:verdict:attrs:%s:%s' % (tag, 'accepted' if accepted else 'rejected'),
+                            'soft validation %s a request whose attribute / data value %s the declared length facet (%s)' % (
+                                'accepted' if accepted else 'rejected', 'violates only' if not exp else 'satisfies', tag), replay)
+            parsed = parse_like_spyne(data, app.in_protocol)
+            bnode = body_of(proto, node_of(parsed)) if parsed is not None else None
+            impl = impl_decode_outcome(b, r)
+            if impl is not None and bnode is not None:
+                if 'ok' in impl:
+                    impl = {'ok': impl['ok'][1]}
+                queries.append({'op': 'xmla.decode', 'cfg': cfg_json('soft'), 'iface': slim_iface(b, False), 'ty': in_ty, 'doc': bnode})
+                expect.append(('xmla.decode', impl, replay))
+    return n
+
+
 def attrs_hostile(ctx, pid):
     """classes with attribute / data members under document-level mutations (attribute removed / out of its value space /
     revalued / unknown, text out of the value space, a child element named like such a member, the parent's attribute on
@@ -5508,6 +5568,11 @@ def attrs_hostile(ctx, pid):
                         queries.append({'op': 'xmla.decode', 'cfg': cfg_json(validator), 'iface': slim_iface(b, False),
                                         'ty': in_ty, 'doc': bnode})
                         expect.append(('xmla.decode', impl, replay))
+    n_len = attrs_length_cases(ctx, pid, queries, expect)
+    ctx.cov['attr_values_violating_only_the_length_facet'] = n_len
+    if n_len == 0:
+        # guard: this dimension once disappeared silently when the sampled mutations happened not to draw it
+        raise core.Infra('no attribute / data value violating only a length facet was generated')
     answers = ctx.model(queries, driver='C01')
     for q, (op, impl, case), mod in zip(queries, expect, answers):
         if norm_answer(mod) != impl:
